@@ -125,6 +125,78 @@ def gen_project(rng, variant=0):
     return files
 
 
+def gen_fw_project(rng):
+    """The link-graph family: a small project (cheap to configure, so that it is run under many hash seeds) whose link
+    steps merge what SEVERAL static libraries forward.  Four to six static libraries with drawn names each forward something
+    of their own (a library they depend on, link options, a package, or several of these); static libraries of a second
+    level depend on two or three of them; executables, shared libraries and pkg_config() take two to four libraries of
+    either level, in a drawn order.  The merged lists end up in the link lines, the dependency lists, the rpaths and
+    Libs.private - in the order the script gives, whatever the hash seed."""
+    def nm(prefix):
+        return prefix + ''.join(rng.choice('abcdefghkmnpqrstuvwxyz') for _ in range(rng.randint(2, 5)))
+    files = {'main.c': 'int main(void) { return 0; }\n'}
+    L = ["project('p13fw', version='0.4')", "zlib = package('zlib')", "z3 = package('z3')"]
+    used = set()
+
+    def fresh(prefix):
+        while True:
+            n = nm(prefix)
+            if n not in used:
+                used.add(n)
+                return n
+
+    def src():
+        f = 'src/%s.c' % fresh('f')
+        files[f] = 'int %s(void) { return 1; }\n' % os.path.basename(f)[:-2]
+        return f
+    shared = []
+    for i in range(3):
+        L.append("sh%d = shared_library(%r, files=[%r])" % (i, fresh('sh'), src()))
+        shared.append('sh%d' % i)
+    fw = []
+    for i in range(rng.randint(4, 6)):
+        kinds = rng.sample(['libs', 'link_options', 'packages'], rng.choice([1, 1, 2, 3]))
+        kw = []
+        if 'libs' in kinds:
+            kw.append('libs=[%s]' % ', '.join(rng.sample(shared, rng.choice([1, 1, 2]))))
+        if 'link_options' in kinds:
+            kw.append('link_options=[%s]' % ', '.join(repr('-Wl,--defsym,%s=%d' % (fresh('y'), k)) for k in range(rng.choice([1, 2]))))
+        if 'packages' in kinds:
+            kw.append('packages=[%s]' % rng.choice(['zlib', 'z3', 'zlib, z3']))
+        L.append("fw%d = static_library(%r, files=[%r], %s)" % (i, fresh('fw'), src(), ', '.join(kw)))
+        fw.append('fw%d' % i)
+    up = []
+    for i in range(rng.randint(2, 3)):
+        deps = rng.sample(fw, rng.randint(2, 3))
+        extra = ", link_options=['-Wl,--defsym,%s=7']" % fresh('y') if rng.random() < 0.5 else ''
+        L.append("up%d = static_library(%r, files=[%r], libs=[%s]%s)" % (i, fresh('up'), src(), ', '.join(deps), extra))
+        up.append('up%d' % i)
+    outs = []
+    for i in range(rng.randint(3, 4)):
+        libs = rng.sample(fw, rng.randint(2, 4))
+        if rng.random() < 0.4:
+            libs.insert(rng.randint(0, len(libs)), rng.choice(up))
+        L.append("ex%d = executable(%r, files=['main.c', %r], libs=[%s])" % (i, fresh('bin/e'), src(), ', '.join(libs)))
+        outs.append('ex%d' % i)
+    L.append("exu = executable(%r, files=['main.c'], libs=[%s])" % (fresh('eu'), ', '.join(rng.sample(up, 2))))
+    for i in range(2):
+        libs = rng.sample(fw + up, rng.randint(2, 3))
+        L.append("dl%d = shared_library(%r, files=[%r], libs=[%s])" % (i, fresh('dl'), src(), ', '.join(libs)))
+        outs.append('dl%d' % i)
+    L.append("install(exu, %s)" % ', '.join(outs))
+    L.append("pkg_config(%r, version='0.4', libs=[%s])" % (fresh('pc'), ', '.join(rng.sample(fw, rng.randint(2, 4)))))
+    L.append("pkg_config(%r, version='0.4', libs=[dl0, %s], auto_fill=False)" % (fresh('pc'), ', '.join(rng.sample(up, 2))))
+    files['build.bfg'] = '\n'.join(L) + '\n'
+    return files
+
+
+def make_project(pdesc):
+    """project description (as stored in replay files) -> files"""
+    if pdesc['variant'] == 'fw':
+        return gen_fw_project(random.Random(pdesc['seed']))
+    return gen_project(random.Random(pdesc['seed']), pdesc['variant'])
+
+
 # ============================================================================= AST scan (the tie for completeness)
 SET_METHODS = {'union', 'intersection', 'difference', 'symmetric_difference', 'copy'}
 UNORDERED_CONSUMERS = {'set', 'frozenset', 'sorted', 'any', 'all', 'len', 'min', 'max', 'sum', 'bool'}
@@ -713,11 +785,25 @@ def stage_system(rep, rng, tier, boost=1):
         for k in range(nslices):
             jobs.append((files, cx[k::nslices], ('make', 'ninja'), None))
             descs.append({'seed': pseed, 'variant': variant})
+    # the link-graph family (several forwarding static libraries per link step): small projects, more hash seeds each
+    n_fw = (2 if tier == 'quick' else 4) * boost
+    fw_seeds = 6 if tier == 'quick' else 32
+    for pi in range(n_fw):
+        pseed = rng.randrange(1 << 30)
+        files = gen_fw_project(random.Random(pseed))
+        cx = [dict(BASE_CTX, seed=str(s)) for s in range(1, fw_seeds)]
+        cx.append(dict(BASE_CTX, seed=str(fw_seeds), regen='full'))
+        cx.append(dict(BASE_CTX, seed=str(fw_seeds + 1), cwd='else', spell='rel'))
+        nslices = 2 if tier == 'quick' else 8
+        for k in range(nslices):
+            jobs.append((files, cx[k::nslices], ('make', 'ninja'), None))
+            descs.append({'seed': pseed, 'variant': 'fw'})
+            rep.count('link-graph-family:contexts', 2 * len(cx[k::nslices]))
     bad = 0
     with ThreadPoolExecutor(max_workers=workers) as ex:
         for desc, (root, res) in zip(descs, ex.map(run_root, jobs)):
             bad += compare_root(rep, desc, root, res)
-    rep.stage('system:differential-configure', projects=n_proj, hash_seeds=n_seeds, roots=len(jobs), failures=bad)
+    rep.stage('system:differential-configure', projects=n_proj, hash_seeds=n_seeds, link_graph_projects=n_fw, link_graph_hash_seeds=fw_seeds + 2, roots=len(jobs), failures=bad)
     return bad
 
 
@@ -1079,6 +1165,6 @@ def replay(rep, path):
     if 'context' not in r:
         return run(rep)
     pd = r['project']
-    files = gen_project(random.Random(pd['seed']), pd['variant'])
+    files = make_project(pd)
     root, res = run_root((files, [r['context']], (r['backend'],), None))
     compare_root(rep, pd, root, res)
